@@ -131,8 +131,10 @@ fn rule_matches(exp: &J, got: &Result<Result<Rule, reval::parse::Error>, String>
                     return Err(format!("metadata key {gk:?}, expected {:?}", uncps(&e[0])));
                 }
                 let ev = from_model(&e[1]).map_err(|x| format!("TOOL: meta value: {x}"))?;
-                if !value_matches(&ev, gv) {
-                    return Err(format!("metadata {gk:?} = {gv:?}, expected {ev:?}"));
+                // metadata values are constants as written: compared in their exact representation (the scale of a
+                // decimal, the sign of a float zero), not merely numerically
+                if !value_matches(&ev, gv) || to_model(gv) != e[1] {
+                    return Err(format!("metadata {gk:?} = {gv:?}, expected {ev:?} (exact representation: {} vs {})", to_model(gv), e[1]));
                 }
                 if let Some(s) = r.get_metadata(gk) {
                     if !value_matches(&ev, s) {
@@ -159,6 +161,18 @@ pub fn replay_parse(case: &J, rep: &mut Report) {
         Ok(t) => t,
         Err(e) => return rep.tool_error(format!("text: {e}")),
     };
+    replay_parse_once(case, &text, rep, "");
+}
+
+/// parse the same text once more (a parse result is a function of the text, whatever was parsed before)
+pub fn replay_parse_again(case: &J, rep: &mut Report) {
+    if let Ok(text) = uncps(&case["text"]) {
+        replay_parse_once(case, &text, rep, ":again");
+    }
+}
+
+fn replay_parse_once(case: &J, text: &str, rep: &mut Report, suffix: &str) {
+    let text = text.to_string();
     let got = catch_unwind(AssertUnwindSafe(|| Expr::parse(&text))).map_err(panic_msg);
     let gotr = catch_unwind(AssertUnwindSafe(|| Rule::parse(&text))).map_err(panic_msg);
     rep.evaluations += 2;
@@ -182,11 +196,12 @@ pub fn replay_parse(case: &J, rep: &mut Report) {
         }
     }
     match verdict {
+        Ok(()) if !suffix.is_empty() => {}
         Ok(()) => rep.case_ok(exp_ok || case["rule"]["k"] == "ok", || json!({"text": text, "expr_accepted": exp_ok, "rule": case["rule"]["k"]})),
         Err(why) if why.starts_with("TOOL:") => rep.tool_error(why),
         Err(why) => {
             let kind = if why.contains("panicked") { "panic" } else if why.starts_with("accepted") { "accepts" } else if why.starts_with("rejected") { "rejects" } else { "differs" };
-            rep.mismatch(&format!("{key_base}:{stage}:{kind}"), json!({"engine": "parse", "text": text, "case": case, "why": why}))
+            rep.mismatch(&format!("{key_base}:{stage}:{kind}{suffix}"), json!({"engine": "parse", "text": text, "case": case, "why": why}))
         }
     }
 }
